@@ -20,7 +20,7 @@ class Plan:
     def __init__(self, r): self.r, self.k, self.ops, self.tags = r, 0, [], []
     def add(self, fmt, tag, data, native, dims, n_variants=3, full=False):
         r = self.r
-        other = {"rgb8": "rgba8", "rgba8": "rgb8", "gray8": "rgb8", "gray1": "gray8"}[native]
+        other = ({"rgb8": "gray8", "gray8": "rgb8", "gray1": "gray8"} if fmt == "pnm" else {"rgb8": "rgba8", "rgba8": "rgb8"})[native]
         combos = [(e, d) for e in ENTRIES for d in DEVS]
         picks = combos if full else [combos[(self.k + 7 * i) % len(combos)] for i in range(n_variants)]
         self.k += 1
@@ -69,6 +69,35 @@ def gen_ops(ctx):
             plan.add("bmp", tag + ":" + m, x, native, dims, n_variants=1 if not th else 2)
         for (m, x) in G.random_mutations(b, r, 12 if th else 3):
             plan.add("bmp", tag + ":" + m, x, native, dims, n_variants=1 if not th else 2)
+    # ---- PNM
+    seeds = G.pnm_seeds(r, th)
+    for i, (tag, b, native, dims) in enumerate(seeds):
+        plan.add("pnm", tag + ":valid", b, native, dims, full=(i % 9 == 0 or th))
+    for i, (tag, b, native, dims) in enumerate(seeds):
+        if th or dims == (2, 2) or (dims == (9, 3) and "c" not in tag): cuts = G.truncations(b, r, True)
+        else: cuts = [("trunc:%d" % k, b[:k]) for k in sorted({r.below(len(b)) for _ in range(6)})]
+        for (m, x) in cuts: plan.add("pnm", tag + ":" + m, x, native, dims, n_variants=1 if not th else 4)
+    for i, (tag, b, native, dims) in enumerate(seeds):
+        if not th and dims not in ((3, 2), (9, 3)): continue
+        for (m, x) in G.pnm_mutations(b, r, th): plan.add("pnm", tag + ":" + m, x, native, dims, n_variants=1 if not th else 3)
+    for (tag, b, native, dims) in seeds:
+        start = min(len(b) - 1, 12)
+        for (m, x) in G.tail_corruptions(b, start, r, 3 if th else 1): plan.add("pnm", tag + ":" + m, x, native, dims, n_variants=1 if not th else 2)
+        for (m, x) in G.random_mutations(b, r, 12 if th else 3): plan.add("pnm", tag + ":" + m, x, native, dims, n_variants=1 if not th else 2)
+    # ---- TARGA
+    seeds = G.tga_seeds(r, th)
+    for i, (tag, b, native, dims) in enumerate(seeds):
+        plan.add("tga", tag + ":valid", b, native, dims, full=(i % 5 == 0 or th))
+    for i, (tag, b, native, dims) in enumerate(seeds):
+        if th or dims in ((2, 2), (3, 2)): cuts = G.truncations(b, r, True)
+        else: cuts = [("trunc:%d" % k, b[:k]) for k in sorted({r.below(len(b)) for _ in range(8)})]
+        for (m, x) in cuts: plan.add("tga", tag + ":" + m, x, native, dims, n_variants=1 if not th else 4)
+    for i, (tag, b, native, dims) in enumerate(seeds):
+        if not th and dims not in ((3, 2), (2, 2)): continue
+        for (m, x) in G.field_mutations(b, G.TGA_FIELDS, G.TGA_EXTRA): plan.add("tga", tag + ":" + m, x, native, dims, n_variants=1 if not th else 3)
+    for (tag, b, native, dims) in seeds:
+        for (m, x) in G.tail_corruptions(b, min(18, len(b) - 1), r, 3 if th else 2): plan.add("tga", tag + ":" + m, x, native, dims, n_variants=1 if not th else 2)
+        for (m, x) in G.random_mutations(b, r, 12 if th else 4): plan.add("tga", tag + ":" + m, x, native, dims, n_variants=1 if not th else 2)
     return plan.ops, plan.tags
 
 # ------------------------------------------------------------------ running
